@@ -545,7 +545,8 @@ class StyleProperties:
 
     @staticmethod
     def validate(value: typing.Tuple[typing.Union[str, GenericFontFamilyType]]):
-      return isinstance(value, tuple) and all(isinstance(i, (str, GenericFontFamilyType)) for i in value)
+      return isinstance(value, tuple) and len(value) > 0 and \
+        all(isinstance(i, (str, GenericFontFamilyType)) and i != "" for i in value)
 
 
   class FontSize(StyleProperty):
